@@ -1,49 +1,185 @@
-use cachelito_core::{CacheEntry, CacheStats, EvictionPolicy, GlobalCache};
-use once_cell::sync::Lazy;
-use parking_lot::{Mutex, RwLock};
-use std::collections::{HashMap, VecDeque};
-use vsched::{RwPolicy, Thunk};
+mod common;
+mod json;
+mod seqx;
+mod vals;
+
+use common::*;
+use json::J;
+use vals::Val;
+
+fn seqx_run_type<V: Val>(property: &str, thorough: bool, shard: (usize, usize), counter: &mut usize, state_cap: u64) {
+    for spec in seqx::specs_for::<V>(property, thorough) {
+        let idx = *counter;
+        *counter += 1;
+        if idx % shard.1 != shard.0 {
+            continue;
+        }
+        let t0 = std::time::Instant::now();
+        let r = seqx::explore_config::<V>(&spec, property, state_cap);
+        let kinds = J::Obj(r.kinds.iter().map(|(k, v)| (k.clone(), J::Int(*v as i64))).collect());
+        emit(
+            "CONFIG",
+            J::obj()
+                .set("config", spec.to_json())
+                .set("label", spec.cfg.label())
+                .set("states", r.states)
+                .set("transitions", r.transitions)
+                .set("depth_completed", r.depth_completed)
+                .set("closure", r.closure)
+                .set("state_cap_hit", r.state_cap_hit)
+                .set("random_branches", r.random_branches)
+                .set("kinds", kinds)
+                .set("samples", J::Arr(r.samples.clone()))
+                .set("wall_s", t0.elapsed().as_secs_f64()),
+        );
+        for v in &r.violations {
+            emit("VIOLATION", v.to_json());
+        }
+    }
+}
+
+fn seqx_main(args: &Args) -> i32 {
+    if let Some(path) = args.get("replay") {
+        return seqx_replay(path, args.get("property").unwrap_or(""));
+    }
+    let property = args.get("property").expect("--property").to_string();
+    let thorough = args.get("tier") == Some("thorough");
+    let shard = args.shard();
+    let state_cap = args.usize("state-cap", 400_000) as u64;
+    let mut counter = 0usize;
+    seqx_run_type::<String>(&property, thorough, shard, &mut counter, state_cap);
+    if property == "C05" || (property == "C16" && thorough) {
+        seqx_run_type::<Vec<String>>(&property, thorough, shard, &mut counter, state_cap);
+        seqx_run_type::<Option<String>>(&property, thorough, shard, &mut counter, state_cap);
+        if thorough {
+            seqx_run_type::<Vec<u8>>(&property, thorough, shard, &mut counter, state_cap);
+            seqx_run_type::<Result<String, String>>(&property, thorough, shard, &mut counter, state_cap);
+            seqx_run_type::<(String, Vec<u8>)>(&property, thorough, shard, &mut counter, state_cap);
+            seqx_run_type::<Box<String>>(&property, thorough, shard, &mut counter, state_cap);
+        }
+    }
+    emit("DONE", J::obj().set("configs_total", counter));
+    0
+}
+
+fn spec_from_json(c: &J) -> Option<seqx::Spec> {
+    let cfg = Config {
+        flavour: Flavour::parse(c.get("flavour")?.as_str()?)?,
+        policy: Pol::parse(c.get("policy")?.as_str()?)?,
+        limit: c.get("limit").and_then(|x| x.as_i64()).map(|x| x as usize),
+        ttl: c.get("ttl").and_then(|x| x.as_i64()).map(|x| x as u64),
+        max_memory: c.get("max_memory").and_then(|x| x.as_i64()).map(|x| x as usize),
+        fw: c.get("frequency_weight").and_then(|x| x.as_f64()),
+        vtype: "",
+    };
+    let variants = c
+        .get("variants")?
+        .as_arr()?
+        .iter()
+        .filter_map(|p| {
+            let a = p.as_arr()?;
+            Some((a[0].as_i64()? as u8, a[1].as_i64()? as usize))
+        })
+        .collect();
+    Some(seqx::Spec {
+        cfg,
+        nkeys: c.get("keys")?.as_i64()? as u8,
+        variants,
+        depth: c.get("depth")?.as_i64()? as usize,
+        tick_ns: c.get("tick_ns").and_then(|x| x.as_i64()).map(|x| x as u64),
+        include_stats: matches!(c.get("stats_in_state"), Some(J::Bool(true))),
+    })
+}
+
+fn seqx_replay_typed<V: Val>(spec: &seqx::Spec, ops: &[(seqx::Op, Vec<usize>)], property: &str) -> (Vec<String>, bool) {
+    let mut lines = Vec::new();
+    let mut bad = false;
+    let mut runner = seqx::Runner::<V>::new(spec);
+    for (op, ch) in ops {
+        let (o, _) = vsched::run_with_choices(ch, || runner.apply(*op, true));
+        let snap = if o.panicked { seqx::Snap::default() } else { runner.subj.snap() };
+        lines.push(format!(
+            "{:<12} -> {:<10} store={:?} queue={:?} stats=({},{})",
+            op.render(),
+            o.result,
+            snap.store.iter().map(|(k, e)| format!("{k}=v{} hits={} age={}s", e.ident.1, e.hits, e.age_ns as f64 / 1e9)).collect::<Vec<_>>(),
+            snap.order,
+            snap.hits,
+            snap.misses
+        ));
+        for f in &o.findings {
+            lines.push(format!("    FINDING {}/{}: {}", f.property, f.monitor, f.detail));
+            if property.is_empty() || f.property == property {
+                bad = true;
+            }
+        }
+        if o.panicked {
+            break;
+        }
+    }
+    (lines, bad)
+}
+
+fn seqx_replay(path: &str, property: &str) -> i32 {
+    let src = std::fs::read_to_string(path).expect("read replay file");
+    let j = json::parse(&src).expect("parse replay file");
+    let j = j.get("replay").cloned().unwrap_or(j);
+    let c = j.get("config").expect("config");
+    let spec = spec_from_json(c).expect("spec");
+    let ops: Vec<seqx::Op> = j.get("ops").and_then(|x| x.as_arr()).unwrap().iter().map(|o| seqx::Op::parse(o.as_str().unwrap()).unwrap()).collect();
+    let choices: Vec<Vec<usize>> = j
+        .get("choices")
+        .and_then(|x| x.as_arr())
+        .unwrap()
+        .iter()
+        .map(|a| a.as_arr().unwrap().iter().map(|x| x.as_i64().unwrap() as usize).collect())
+        .collect();
+    let hist: Vec<(seqx::Op, Vec<usize>)> = ops.into_iter().zip(choices).collect();
+    let vt = c.get("value_type").and_then(|x| x.as_str()).unwrap_or("String").to_string();
+    let run = |spec: &seqx::Spec| match vt.as_str() {
+        "Vec<u8>" => seqx_replay_typed::<Vec<u8>>(spec, &hist, property),
+        "Vec<String>" => seqx_replay_typed::<Vec<String>>(spec, &hist, property),
+        "Option<String>" => seqx_replay_typed::<Option<String>>(spec, &hist, property),
+        "Result<String,String>" => seqx_replay_typed::<Result<String, String>>(spec, &hist, property),
+        "(String,Vec<u8>)" => seqx_replay_typed::<(String, Vec<u8>)>(spec, &hist, property),
+        "Box<String>" => seqx_replay_typed::<Box<String>>(spec, &hist, property),
+        _ => seqx_replay_typed::<String>(spec, &hist, property),
+    };
+    let (a, bad_a) = run(&spec);
+    let (b, bad_b) = run(&spec);
+    for l in &a {
+        println!("{l}");
+    }
+    if a != b || bad_a != bad_b {
+        println!("MACHINERY-FAILURE: replay is not deterministic");
+        return 3;
+    }
+    println!("replayed twice with identical observations; violation reproduced: {bad_a}");
+    if bad_a {
+        1
+    } else {
+        0
+    }
+}
 
 fn main() {
     vsched::install_quiet_panic_hook();
     cachelito_core::verif_hooks::install(vsched::clock_now, vsched::atomic_point);
-    let map: &'static Lazy<RwLock<HashMap<String, CacheEntry<u32>>>> =
-        Box::leak(Box::new(Lazy::new((|| RwLock::new(HashMap::new())) as fn() -> _)));
-    let order: &'static Lazy<Mutex<VecDeque<String>>> = Box::leak(Box::new(Lazy::new((|| Mutex::new(VecDeque::new())) as fn() -> _)));
-    let stats: &'static Lazy<CacheStats> = Box::leak(Box::new(Lazy::new(CacheStats::new as fn() -> _)));
-    for bound in 0..4 {
-        let t0 = std::time::Instant::now();
-        let mut dl = 0;
-        let st = vsched::explore(
-            bound,
-            RwPolicy::ReadersBarge,
-            u64::MAX,
-            &mut || {
-                map.write().clear();
-                order.lock().clear();
-                let a: Thunk = Box::new(move || {
-                    let c = GlobalCache::new(map, order, Some(1), None, EvictionPolicy::LRU, None, None, stats);
-                    c.insert("a", 1);
-                    c.insert("b", 2);
-                });
-                let b: Thunk = Box::new(move || {
-                    let mut m = map.write();
-                    let mut o = order.lock();
-                    m.clear();
-                    o.clear();
-                });
-                vec![a, b]
-            },
-            &mut |out| {
-                if out.deadlock.is_some() {
-                    dl += 1;
-                    if dl == 1 {
-                        println!("{:#?}\n{:#?}", out.deadlock, out.render_schedule());
-                    }
-                }
-                true
-            },
-        );
-        println!("bound {bound}: {:?} deadlocks={dl} in {:?}", st, t0.elapsed());
+    let argv: Vec<String> = std::env::args().skip(1).collect();
+    if argv.is_empty() {
+        eprintln!("usage: engine <seqx|macx|thrx|pollx> --property <ID> --tier <quick|thorough> [--shard i/n] | --replay <file>");
+        std::process::exit(2);
     }
+    let args = Args::parse(&argv[1..]);
+    let code = match argv[0].as_str() {
+        "seqx" => {
+            vsched::sequential_mode(true);
+            seqx_main(&args)
+        }
+        other => {
+            eprintln!("unknown engine {other}");
+            2
+        }
+    };
+    std::process::exit(code);
 }
